@@ -254,7 +254,8 @@ def stage_partition(i, rec, root, ref):
     # with CR / CRLF endings the same deviation is also a C13 matter (line endings never change what is parsed)
     # ... and, seen from the report, a line lost or invented between files makes totals disagree with the ledger (C04)
     # and changes whether sales are covered (C05)
-    props = ['C06', 'C04', 'C05'] + (['C13'] if any(x in ('cr', 'crlf') for x in rec['eol']) else [])
+    # (a lost SELL line also means legs no longer add up to the shares sold, C02, and a lost BUY that cost vanishes, C03)
+    props = ['C06', 'C02', 'C03', 'C04', 'C05'] + (['C13'] if any(x in ('cr', 'crlf') for x in rec['eol']) else [])
     if rc != 0:
         return [finding(p, 'partition_rejected', f'the ledger is accepted as one file but refused when split over {len(files)} files ({"/".join(rec["eol"])} line endings): {se[-300:].decode(errors="replace")}', inp, i) for p in props], 1
     if report_core(so) != ref:
